@@ -40,7 +40,7 @@ func randomTips(tr *tree.Tree, n int) (sampled []string) {
 		if i < n {
 			sampled[i] = tip.Name()
 		} else {
-			j := rand.Intn(i)
+			j := rand.Intn(i + 1)
 			if j < n {
 				sampled[j] = tip.Name()
 			}
